@@ -135,7 +135,9 @@ EncTerm(r) ==
 
 \* canonical order: State, Error, Method, SessionID, PublicKey, EncryptedData
 Canon(r) ==
-    <<Item("state", St(IF r.st = "ok" THEN "M2" ELSE "M4"))>>
+    \* "empty": a State item of length 0; "trailing": the right step number followed by another byte - neither is the
+    \* one-byte step number M2 (only a State item that is *missing* is tolerated, see C04)
+    <<Item("state", St(CASE r.st = "ok" -> "M2" [] r.st = "wrong" -> "M4" [] r.st = "empty" -> "zero-length" [] OTHER -> "M2+trailing"))>>
     \o (IF r.err = "auth" THEN <<Item("error", Err("auth"))>> ELSE << >>)
     \o (IF r.method # "absent" THEN <<Item("method", Meth(r.method))>> ELSE << >>)
     \o (IF r.sid # "absent" THEN <<Item("sid", SidTerm(r))>> ELSE << >>)
@@ -183,17 +185,23 @@ EncSpace  == IF WithResume THEN {EncDefault, HonestSub, ForgedSub} \cup EncTag E
 ModSpace  == IF WithResume THEN ResumeMods ELSE Mods
 MethSpace == IF WithResume THEN MethodCh ELSE {"absent"}
 SidSpace  == IF WithResume THEN SidCh ELSE {"absent"}
+Honest ==    Mk(<<"ok", "none">>, "eA", HonestSub, ModDefault, "absent", "absent")
+HonestResume == Mk(<<"ok", "none">>, "absent", [EncDefault EXCEPT !.enc = "tag"], ModDefault, "resume", "new")
+\* otherwise honest replies whose State item has the wrong length
+StateLenSpace == { [Honest EXCEPT !.st = x] : x \in {"empty", "trailing"} }
+                 \cup (IF WithResume THEN { [HonestResume EXCEPT !.st = x] : x \in {"empty", "trailing"} } ELSE {})
+
 \* membership test, field by field (cheap: used on recorded replies)
 InSpace(r) ==
+  \/ r \in StateLenSpace
+  \/
     /\ <<r.st, r.err>> \in Heads /\ r.pub \in PubSpace /\ r.method \in MethSpace /\ r.sid \in SidSpace
     /\ [enc |-> r.enc, key |-> r.key, nonce |-> r.nonce, id |-> r.id, sigp |-> r.sigp, signer |-> r.signer, tr |-> r.tr,
         tag |-> r.tag] \in EncSpace
     /\ [corrupt |-> r.corrupt, layout |-> r.layout, cut |-> r.cut] \in ModSpace
     /\ Valid(r)
-M4Space == {"ok", "wrong", "auth"}
+M4Space == {"ok", "wrong", "auth", "empty", "trailing"}     \* empty / trailing: State item of length 0 / M4 + another byte
 
-Honest ==    Mk(<<"ok", "none">>, "eA", HonestSub, ModDefault, "absent", "absent")
-HonestResume == Mk(<<"ok", "none">>, "absent", [EncDefault EXCEPT !.enc = "tag"], ModDefault, "resume", "new")
 
 \* number of choices in which a description differs from the honest reply (near misses are exported in every tier)
 B2N(b) == IF b THEN 1 ELSE 0
@@ -254,7 +262,7 @@ Verdict(r, m4) ==
     LET m2 == M2Result(r) IN
     IF m2[1] = "fail" THEN [v |-> "fail", stage |-> m2[2], m3 |-> FALSE]
     ELSE IF m2[1] = "resumed" THEN [v |-> "ok", stage |-> "resumed", m3 |-> FALSE]
-    ELSE IF m4 = "wrong" THEN [v |-> "fail", stage |-> "state4", m3 |-> TRUE]
+    ELSE IF m4 \in {"wrong", "empty", "trailing"} THEN [v |-> "fail", stage |-> "state4", m3 |-> TRUE]
     ELSE IF m4 = "auth" THEN [v |-> "fail", stage |-> "error4", m3 |-> TRUE]
     ELSE [v |-> "ok", stage |-> "full", m3 |-> TRUE]
 
@@ -272,8 +280,9 @@ VARIABLES cpc,        \* controller: "M1sent", the stage being checked, "M3sent"
           akeys
 vars == <<cpc, reply, d, failed, resumed, shared, ckeys, m3, m4, apc, akeys>>
 
-Init == /\ \E h \in Heads, p \in PubSpace, e \in EncSpace, m \in ModSpace, meth \in MethSpace, sid \in SidSpace :
-              reply = Mk(h, p, e, m, meth, sid) /\ Valid(reply)
+Init == /\ \/ \E h \in Heads, p \in PubSpace, e \in EncSpace, m \in ModSpace, meth \in MethSpace, sid \in SidSpace :
+                 reply = Mk(h, p, e, m, meth, sid) /\ Valid(reply)
+           \/ reply \in StateLenSpace
         /\ m4 = "none"
         /\ cpc = "M1sent" /\ d = [t \in Types |-> None] /\ failed = "none" /\ resumed = FALSE
         /\ shared = None /\ ckeys = None /\ m3 = None /\ apc = "idle" /\ akeys = None
@@ -331,7 +340,7 @@ ReceiveM4 ==            \* the reply to M3: honest, wrong step number, or an err
     /\ m4' \in M4Space
     /\ cpc' = "state4"
     /\ UNCHANGED <<reply, d, failed, resumed, shared, ckeys, m3, apc, akeys>>
-CheckM4State == cpc = "state4" /\ IF m4 # "wrong" THEN Goto("error4") ELSE Fail("state4")
+CheckM4State == cpc = "state4" /\ IF m4 \notin {"wrong", "empty", "trailing"} THEN Goto("error4") ELSE Fail("state4")
 CheckM4Error ==
     /\ cpc = "error4"
     /\ IF m4 # "auth"
